@@ -16,8 +16,8 @@ for sid, meta, t in rows:
     own = sid.split("-")[0]
     summ = (meta.get("summary") or "").replace("|", "/").replace("\n", " ")
     need = (meta.get("needs_to_manifest") or "").replace("|", "/").replace("\n", " ")
-    if len(summ) > 230: summ = summ[:227] + "..."
-    if len(need) > 200: need = need[:197] + "..."
+    if len(summ) > 200: summ = summ[:197] + "..."
+    if len(need) > 150: need = need[:147] + "..."
     if t is None:
         print("| %s | %s (%s) | not run | |" % (sid, summ, need)); continue
     hit = [k for k, v in sorted(t.items()) if v["rc"] == 1]
